@@ -307,7 +307,9 @@ def run_c19(tier, seed, replay=None):
     samples = [r['sample'] for r in results[:: max(1, len(results) // 4)][:4] if r.get('sample')]
     cov = dict(evaluations=nchk, distinct_nontrivial=nnt, cases=ncases, results_skipped_outside_claim=nskip,
                rule=('TLC enumerates every element of the stated integer lattices (pairs of vectors, vector x scalar, single vectors '
-                     'with input denominators 1 and 2, stream texts with four separators) and integer affine images of three solids; '
+                     'with input denominators 1 and 2, stream texts with four separators), an integer division/multiplication sweep (numerators '
+                     '0..255 and negatives x divisors 1..255, operands up to 2^30), integer affine images and jittered (non-affine) corner positions of '
+                     'five solids / faces; '
                      'each element is one case and cases are distinct by construction (a TLC set). evaluations = number of logged '
                      'results compared with their TLA+ definition. A vector case is non-trivial when each input vector has two '
                      'different components (so that an index slip or a sign error changes the result) and, for pairs, the two '
@@ -318,7 +320,7 @@ def run_c19(tier, seed, replay=None):
                traces_validated_against_impl=ncases, known_findings_seen=nknown,
                tolerance='float 2^-21 absolute, double 2^-40 absolute on non-representable rationals; square roots and unit '
                          'vectors through squared identities at 2^-21 .. 2^-18 relative; everything representable exactly')
-    (vlib.write_evidence if not (os.environ.get('VERIF_SELFTEST') or replay) else (lambda *a: None))('C19', tier, seed, 'exploration', cov, time.time() - t0, nviol,
+    (vlib.write_evidence if not (os.environ.get('VERIF_SELFTEST') or replay or vlib.REPO != '/repo') else (lambda *a: None))('C19', tier, seed, 'exploration', cov, time.time() - t0, nviol,
                         ['TLC and the CommunityModules JSON bridge are trusted',
                          'the executor\'s radix conversion of float/double results (harness/vec_exec.cc: put(double)) is trusted',
                          'NaN, infinities, subnormals, signed zeros and rounding accuracy on arbitrary reals are NOT covered: TLA+ has no floating point',
@@ -571,7 +573,7 @@ def run_c20(tier, seed, replay=None):
                model_checking=mc_results, states=sum(m['states'] for m in mc_results if m['hazard'] == 'none'),
                transitions=sum(m['transitions'] for m in mc_results if m['hazard'] == 'none'),
                traces_validated_against_impl=nruns, drift_answers=ndrift, drift_ops=drift_ops, known_findings_seen=nknown)
-    (vlib.write_evidence if not (os.environ.get('VERIF_SELFTEST') or replay) else (lambda *a: None))('C20', tier, seed, 'exploration', cov, time.time() - t0, len(seen),
+    (vlib.write_evidence if not (os.environ.get('VERIF_SELFTEST') or replay or vlib.REPO != '/repo') else (lambda *a: None))('C20', tier, seed, 'exploration', cov, time.time() - t0, len(seen),
                         ['data-race freedom is OBSERVED by ThreadSanitizer (gcc libtsan) while the generated programs run; it is not derived from the specification',
                          'TLC and the CommunityModules JSON bridge are trusted; the executor\'s projection (harness/ovm_state.hh dump_state + positions + reader properties) is trusted',
                          'the interleavings that actually occur are chosen by the OS scheduler; TLC explores all interleavings of the MODEL only',
